@@ -74,7 +74,12 @@ def child(tier):
     zone = os.environ.get("TZ")
     out = []
     refbad = []
+    from .. import common as _common
+    group = None
     for idx, (key, raw) in enumerate(cases(tier)):
+        if key[:2] != group:  # the horizon fast-fail budget is per (timeframe, base date), not for the whole child
+            group = key[:2]
+            _common._HORIZON_HITS[0] = 0
         try:
             with deadline(5):
                 got = execute(raw, key[0], key[4], key[5])
@@ -112,8 +117,11 @@ def one_case(zone, key, raw):
             "from hxmc.props.c18 import execute;d=json.load(sys.stdin);"
             "print(json.dumps(execute([tuple(r) for r in d['raw']],d['tf'],d['host'],d['supply'])))") % VERIF_ROOT
     env = dict(os.environ, TZ=zone, PYTHONHASHSEED="0", PYTHONDONTWRITEBYTECODE="1")
-    r = subprocess.run(["/venv/bin/python", "-c", code], input=json.dumps({"raw": raw, "tf": key[0], "host": key[4], "supply": key[5]}),
-                       env=env, capture_output=True, text=True, cwd=VERIF_ROOT, timeout=120)
+    try:
+        r = subprocess.run(["/venv/bin/python", "-c", code], input=json.dumps({"raw": raw, "tf": key[0], "host": key[4], "supply": key[5]}),
+                           env=env, capture_output=True, text=True, cwd=VERIF_ROOT, timeout=30)
+    except subprocess.TimeoutExpired:
+        return "HORIZON"
     if r.returncode != 0:
         return "RAISED"
     return json.loads(r.stdout.strip().splitlines()[-1])
